@@ -10,5 +10,6 @@ def conds(tier):
                                                          [(o, v, f) for o in range(6) for v in range(3) for f in range((2, 6, 6)[v])])], "c05_gen.py")
     out = [Cond(path, n, "main", T, "JWE operation %s, symbolic %s name: returns / reaches a primitive only if alg, enc and zip are admitted"
                 % (OPS[int(n.split("__")[1].split("_")[0])], ("alg", "enc", "zip")[int(n.split("__")[1].split("_")[1])])) for n in names]
+    out.append(Cond("c05_allow.py", "jwe_second_recipient", "main", T, "general JSON, verify_all_recipients=False: an unlisted / unknown alg in ANY recipient makes the call fail"))
     out.append(Cond("c05_allow.py", "jwe_ops_witness", "witness", 200))
     return out
